@@ -61,6 +61,7 @@ class Session:
         I = self.I
         if ext: I.ext.update(ext)
         if I.ext.get('div_zero') == 'fork': I.enable_div_zero_fork()
+        self._max_steps = I.ext.get('max_steps')
         I.stub_prefixes = list(stub_prefixes) + ([] if keep_log else STANDING_PREFIX)
         self.harness_files = list(harness_files); self.omp = omp
         self.t_build = time.time() - t0
@@ -80,6 +81,7 @@ class Session:
         self.I.run(fn, [])
         self.t_setup += time.time() - t0; self.setup_steps += self.I.steps - s0
     def explore(self, fn, **kw):
+        if self._max_steps: self.I.max_steps = self._max_steps     # per-path budget (children start counting at 0)
         R.reset_keep = None
         paths, trunc = EX.explore(self.I, fn, **kw)
         return paths, EX.summarize(paths, trunc)
